@@ -80,11 +80,28 @@ class DeltaCollector:
         self.enable_hash = enable_hash
         self.enable_repr = enable_repr
 
+    @staticmethod
+    def freeze(ctx: Dict[str, Any]) -> Dict[str, bytes | None]:
+        """Serialized image of every value of ``ctx`` (``None`` if not serializable).
+
+        Taken before a node runs and handed to :meth:`compute` as ``pre_images``,
+        it lets the delta see a value that the node changed in place (the
+        pre-context view shares its value objects with the live context).
+        """
+        images: Dict[str, bytes | None] = {}
+        for k, v in ctx.items():
+            try:
+                images[k] = serialize(v)
+            except Exception:
+                images[k] = None
+        return images
+
     def compute(
         self,
         pre_ctx: Dict[str, Any],
         post_ctx: Dict[str, Any],
         required_keys: Iterable[str] | None = None,
+        pre_images: Dict[str, bytes | None] | None = None,
     ) -> dict:
         """Compare two context dictionaries and return a minimal delta summary."""
         required = sorted(set(required_keys or []))
@@ -95,11 +112,16 @@ class DeltaCollector:
         created: Set[str] = post_keys - pre_keys
         maybe_updated: Set[str] = post_keys & pre_keys
 
-        updated = sorted(
-            k
-            for k in maybe_updated
-            if not _stable_equal(pre_ctx.get(k), post_ctx.get(k))
-        )
+        def _changed(k: str) -> bool:
+            image = (pre_images or {}).get(k)
+            if image is not None:
+                try:
+                    return image != serialize(post_ctx.get(k))
+                except Exception:
+                    pass
+            return not _stable_equal(pre_ctx.get(k), post_ctx.get(k))
+
+        updated = sorted(k for k in maybe_updated if _changed(k))
         created_list = sorted(created)
 
         key_summaries: Dict[str, Dict[str, Any]] = {}
